@@ -78,6 +78,16 @@ type Server struct {
 	// that; the payload follows after DataDelay. Partial resyncs are not delayed.
 	PrepDelay time.Duration
 
+	// SnapWrites is the number of commands the master appends to its history while a
+	// snapshot is on its way (between the +FULLRESYNC reply and the payload). Burst cuts
+	// payload + following stream into writes on the connection: "" / "one" = a single
+	// write, "inpay" = split in the middle of the payload, "atend" = split exactly behind
+	// the payload's last byte, "incmd" = split 10 bytes into the first stream command;
+	// the second part follows 1 ms later. One more command is appended and streamed 2 ms
+	// after the burst on the same connection.
+	SnapWrites int
+	Burst      string
+
 	// MachineryErrors collects protocol problems of the double itself.
 	MachineryErrors []string
 }
@@ -338,61 +348,111 @@ func (s *Server) psync(cs *connState, argv []string) {
 	var rdb []byte
 	cs.streaming = true
 	cs.next = rec.From
-	var payload func()
+	later := func(d time.Duration, f func()) {
+		time.AfterFunc(d, func() {
+			s.mu.Lock()
+			defer s.mu.Unlock()
+			if !cs.closed {
+				f()
+			}
+		})
+	}
+	payload := func() {
+		if cs.closed {
+			return
+		}
+		s.deliver(cs, rdb, later)
+	}
+	after := func() {
+		if s.DataDelay > 0 {
+			later(s.DataDelay, payload)
+		} else {
+			payload()
+		}
+	}
 	if !grant {
 		rdb = s.cur.Snapshot(s.cur.NumCmds())
 		line := []byte(fmt.Sprintf("+FULLRESYNC %s %d\r\n", s.cur.ReplID, rec.From))
 		size := []byte(fmt.Sprintf("$%d\r\n", len(rdb)))
 		if s.PrepDelay > 0 {
-			later := func(d time.Duration, f func()) {
-				time.AfterFunc(d, func() {
-					s.mu.Lock()
-					defer s.mu.Unlock()
-					if !cs.closed {
-						f()
-					}
-				})
-			}
 			cs.c.Push([]byte("\n"))
 			later(time.Second, func() { cs.c.Push([]byte("\n")) })
 			later(s.PrepDelay, func() { cs.c.Push(line); cs.c.Push([]byte("\n")) })
 			later(s.PrepDelay+1500*time.Millisecond, func() {
 				cs.c.Push(size)
-				if s.DataDelay > 0 {
-					later(s.DataDelay, payload)
-				} else {
-					payload()
-				}
+				after()
 			})
-			payload = func() {
-				cs.c.Push(rdb)
-				cs.ready = true
-				s.feed(cs)
-			}
 			return
 		}
 		cs.c.Push(line)
 		cs.c.Push(size)
 	}
-	payload = func() {
-		if cs.closed {
-			return
+	after()
+}
+
+// deliver writes what follows the PSYNC reply: the snapshot payload (full resync only)
+// and the stream from the served offset. With SnapWrites > 0 the master has taken that
+// many writes while the snapshot was produced; they sit in the socket right behind the
+// payload. Burst says how payload and stream are cut into writes on the connection.
+func (s *Server) deliver(cs *connState, rdb []byte, later func(time.Duration, func())) {
+	if cs.hist != s.cur {
+		return
+	}
+	if rdb != nil && s.SnapWrites > 0 {
+		s.cur.Append(s.SnapWrites)
+	}
+	stream := s.cur.Bytes(cs.next, s.cur.Len())
+	cs.next = s.cur.Len()
+	var first, second []byte
+	switch {
+	case rdb == nil || s.Burst == "" || s.Burst == "one":
+		first = append(append([]byte(nil), rdb...), stream...)
+	case s.Burst == "inpay":
+		h := len(rdb) / 2
+		first = append([]byte(nil), rdb[:h]...)
+		second = append(append([]byte(nil), rdb[h:]...), stream...)
+	case s.Burst == "atend":
+		first = append([]byte(nil), rdb...)
+		second = stream
+	case s.Burst == "incmd":
+		n := 10
+		if n > len(stream) {
+			n = len(stream)
 		}
-		if rdb != nil {
-			cs.c.Push(rdb)
+		first = append(append([]byte(nil), rdb...), stream[:n]...)
+		second = stream[n:]
+	default:
+		s.MachineryErrors = append(s.MachineryErrors, "unknown Burst mode "+s.Burst)
+		first = append(append([]byte(nil), rdb...), stream...)
+	}
+	if len(first) > 0 {
+		cs.c.Push(first)
+	}
+	// the connection stays up and carries more stream: one more write of the master
+	// arrives 2 ms after the burst (well before a replica has loaded the snapshot)
+	tail := func() {
+		if rdb != nil && s.SnapWrites > 0 {
+			later(2*time.Millisecond, func() {
+				if cs.hist == s.cur {
+					s.cur.Append(1)
+					s.feed(cs)
+				}
+			})
+		}
+	}
+	if second == nil {
+		cs.ready = true
+		tail()
+		return
+	}
+	later(time.Millisecond, func() {
+		if len(second) > 0 {
+			cs.c.Push(second)
 		}
 		cs.ready = true
 		s.feed(cs)
-	}
-	if s.DataDelay > 0 {
-		time.AfterFunc(s.DataDelay, func() {
-			s.mu.Lock()
-			defer s.mu.Unlock()
-			payload()
-		})
-		return
-	}
-	payload()
+		tail()
+	})
 }
 
 func (s *Server) feed(cs *connState) {
